@@ -332,6 +332,33 @@ rot!(h_c04_rotate_h4_n2, 4, 2, 7);
 // @h tier=thorough bound="height 2, rotate(1)" unwind=5
 rot!(h_c04_rotate_h2_n1, 2, 1, 5);
 
+/// Rotation after a net pop (a two-step history): the window is taken from the LIVE top.
+/// @h tier=quick bound="height 3, pop, rotate(2): compared with the plain stack after ONE rotation" unwind=6 cost=2
+#[cfg_attr(kani, kani::proof)]
+#[cfg_attr(kani, kani::unwind(6))]
+pub fn h_c04_pop_then_rotate() {
+    let (mut p, m) = build_sizes(3, [1, 2, 1, 0]);
+    let top = p.pop();
+    assert!(same_pop(&top, &m, 2), "pop returns the top population");
+    p.rotate(2);
+    let mut e = m;
+    e.h = 2;
+    e.size[0] = m.size[1];
+    e.tag[0] = m.tag[1];
+    e.size[1] = m.size[0];
+    e.tag[1] = m.tag[0];
+    check_all(&p, &e);
+    // push after the rotation lands on top of the rotated stack
+    let t = sym::u8();
+    p.push(vec![ind(t)]);
+    e.h = 3;
+    e.size[2] = 1;
+    e.tag[2][0] = t;
+    check_all(&p, &e);
+    vcover!(true, "reached");
+    std::mem::forget((p, top));
+}
+
 // ---- components through a prepared state ---------------------------------------------------------
 
 fn state_with(p: Populations<TagP>) -> State<'static, TagP> {
